@@ -186,13 +186,45 @@ def run(ctx):
             ctx.violation({"site": "files.stdin", "case": name}, {"table": name, "rows": n}, expected="ids 0..%d" % (n - 1), observed={"exit": rc, "rows": len(got), "stderr": err[-200:], "head": got[:5]},
                           note="data piped on stdin is not returned completely / in order")
     ctx.cover(evaluations=len(jobs), distinct=len(jobs))
+    # ---------------- parquet: files written value by value with explicit repetition / definition levels ----------------
+    pdir = os.path.join(d, "pq")
+    os.makedirs(pdir)
+    pcases = ctx.scratch + "/c23_pq_cases.ndjson"
+    ctx.driver("parquet-gen", ["-dir", pdir, "-out", pcases, "-n", 40 if thorough else 12, "-rows", 300 if thorough else 60, "-seed", ctx.seed])
+    files = ctx.read_ndjson(pcases)
+    pq, pmeta = [], []
+    for fcase in files:
+        cols = fcase["cols"]
+        subsets = [cols, [cols[-1]], [cols[-2], cols[0]], cols[1:4], [cols[4]], [cols[2], cols[5 if len(cols) > 5 else 1]]]
+        for sub in subsets:
+            pq.append({"id": len(pq), "sql": "SELECT %s FROM %s t" % (", ".join("t.%s AS %s" % (c_, c_) for c_ in sub), fcase["path"]), "full": True})
+            pmeta.append((fcase, sub))
+    inp, out = ctx.scratch + "/c23_pq_q.ndjson", ctx.scratch + "/c23_pq_r.ndjson"
+    ctx.write_ndjson(inp, pq)
+    ctx.driver("file-run", ["-in", inp, "-out", out], timeout=3000)
+    npq = 0
+    for (fcase, sub), c, x in zip(pmeta, pq, ctx.read_ndjson(out)):
+        idx = [fcase["cols"].index(c_) for c_ in sub]
+        want = [[row[i] for i in idx] for row in fcase["rows"]]
+        sig = {"site": "datasources.parquet", "shape": fcase["shape"], "projection": "all" if len(sub) == len(fcase["cols"]) else "+".join(sub)}
+        if x["stage"] != "":
+            ctx.violation(dict(sig, why="error"), {"sql": c["sql"], "rows_in_file": len(want)}, expected="%d rows" % len(want), observed=x["stage"] + ": " + x["err"][:300], note="reading the parquet file failed")
+            continue
+        npq += len(x["rows"])
+        if core.canon(x["rows"]) != core.canon(want):
+            bad = next((i for i in range(min(len(want), len(x["rows"]))) if core.canon(want[i]) != core.canon(x["rows"][i])), min(len(want), len(x["rows"])))
+            ctx.violation(dict(sig, why="row content" if len(want) == len(x["rows"]) else "row count"), {"sql": c["sql"], "row": bad, "rows_in_file": len(want)},
+                          expected=want[bad] if bad < len(want) else "%d rows" % len(want), observed=x["rows"][bad] if bad < len(x["rows"]) else "%d rows" % len(x["rows"]),
+                          note="a parquet row does not come back as the values that were written")
+    ctx.cover(evaluations=npq, distinct=len(pq))
+    ctx.notes["parquet"] = {"files": len(files), "queries": len(pq), "rows_compared": npq}
     ctx.coverage["exhaustive"] = False
     ctx.coverage["rule"] = ("JSON lines files of %s rows with strings (quotes, commas, unicode), floats, booleans, NULLs, lists and objects x seeded worker/reader delays; "
                             "all 24 completion orders of the 4 batches of a 256-row file forced through the JSONWorker gate; LIMIT 1/64/65/130 early stops; a self join "
-                            "(two readers, one pool); CSV and TSV with quoting, embedded separators and newlines around the 100-row preview boundary; every "
+                            "(two readers, one pool); parquet files (required / optional scalars, repeated scalars, required / optional / repeated groups) written with explicit Dremel levels, read whole and through 5 column projections; CSV and TSV with quoting, embedded separators and newlines around the 100-row preview boundary; every "
                             "(content <= MaxLen over {x ; |}, separator in 5 separators of length 1..3) of Lines.tla; stdin.json / stdin.csv through the real binary. "
                             "distinct_nontrivial = files x schedules" % counts)
-    ctx.assumptions += ["parquet is not covered by this check (no writer available to the harness without the repository's own reader)"]
+    ctx.assumptions += ["parquet files are written with the page writer of the same (vendored) library the datasource reads with; the rows' repetition and definition levels are computed by the harness"]
 
 
 def replay(ctx, rec):
